@@ -26,6 +26,7 @@ import (
 	"os"
 	"path/filepath"
 	"sort"
+	"strconv"
 	"strings"
 )
 
@@ -400,6 +401,21 @@ func scanMethod(fa *facts, fd *ast.FuncDecl, recv string, nodeFields map[string]
 	})
 }
 
+func chars(s string) string {
+	var o []string
+	for _, r := range s {
+		switch r {
+		case '\'':
+			o = append(o, `'\''`)
+		case '\\':
+			o = append(o, `'\\'`)
+		default:
+			o = append(o, "'"+string(r)+"'")
+		}
+	}
+	return "[" + strings.Join(o, ",") + "]"
+}
+
 func lq(s string) string { return "\"" + strings.NewReplacer("\\", "\\\\", "\"", "\\\"").Replace(s) + "\"" }
 func llist(xs []string) string {
 	q := make([]string, len(xs))
@@ -553,7 +569,92 @@ func main() {
 		}
 		b.WriteString("\n")
 	}
-	b.WriteString("]\n\nend Kap.Gen.C06\n")
+	b.WriteString("]\n\n")
+	// every field of a pipeline node that holds a lambda expression (pipeline/*.go)
+	b.WriteString("/-- (pipeline node type, field) for every field whose type mentions ast.LambdaNode -/\ndef lambdaFields : List (String × String) := [\n")
+	var lf []string
+	pm, _ := filepath.Glob(filepath.Join(repo, "pipeline", "*.go"))
+	sort.Strings(pm)
+	for _, f := range pm {
+		if strings.HasSuffix(f, "_test.go") {
+			continue
+		}
+		file, err := parser.ParseFile(fset, f, nil, 0)
+		if err != nil {
+			fmt.Fprintln(os.Stderr, "parse:", err)
+			os.Exit(1)
+		}
+		for _, d := range file.Decls {
+			gd, ok := d.(*ast.GenDecl)
+			if !ok {
+				continue
+			}
+			for _, sp := range gd.Specs {
+				ts, ok := sp.(*ast.TypeSpec)
+				if !ok {
+					continue
+				}
+				st, ok := ts.Type.(*ast.StructType)
+				if !ok {
+					continue
+				}
+				for _, fl := range st.Fields.List {
+					if strings.Contains(src(fl.Type), "ast.LambdaNode") {
+						for _, n := range fl.Names {
+							lf = append(lf, fmt.Sprintf("  (%s, %s)", lq(ts.Name.Name), lq(n.Name)))
+						}
+					}
+				}
+			}
+		}
+	}
+	sort.Strings(lf)
+	b.WriteString(strings.Join(lf, ",\n") + "\n]\n\n")
+	// the node chains of the C06 harness (kind, TICKscript fragment), read from the harness SOURCE
+	harn := os.Getenv("VERIF_HARNESS")
+	if harn == "" {
+		harn = "/verif/harness"
+	}
+	b.WriteString("/-- (kind, TICKscript fragment) of every node chain the C06 harness generates (harness/c06/c06.go, nodeDefs) -/\ndef harnessKinds : List (String × String) := [\n")
+	var hk, hkl []string
+	if file, err := parser.ParseFile(fset, filepath.Join(harn, "c06", "c06.go"), nil, 0); err == nil {
+		ast.Inspect(file, func(n ast.Node) bool {
+			vs, ok := n.(*ast.ValueSpec)
+			if !ok || len(vs.Names) != 1 || vs.Names[0].Name != "nodeDefs" || len(vs.Values) != 1 {
+				return true
+			}
+			cl, ok := vs.Values[0].(*ast.CompositeLit)
+			if !ok {
+				return true
+			}
+			for _, e := range cl.Elts {
+				kv, ok := e.(*ast.KeyValueExpr)
+				if !ok {
+					continue
+				}
+				k, ok1 := kv.Key.(*ast.BasicLit)
+				v, ok2 := kv.Value.(*ast.CompositeLit)
+				if !ok1 || !ok2 || len(v.Elts) == 0 {
+					continue
+				}
+				sl, ok := v.Elts[0].(*ast.BasicLit)
+				if !ok {
+					continue
+				}
+				ks, _ := strconv.Unquote(k.Value)
+				ss, _ := strconv.Unquote(sl.Value)
+				norm := strings.Join(strings.Fields(ss), " ")
+				hk = append(hk, fmt.Sprintf("  (%s, %s)", lq(ks), lq(norm)))
+				hkl = append(hkl, fmt.Sprintf("  (%s, %s)", chars(ks), chars(norm)))
+			}
+			return false
+		})
+	}
+	sort.Strings(hk)
+	b.WriteString(strings.Join(hk, ",\n") + "\n]\n\n")
+	// the same list as character lists (cheap for the kernel: no String decoding inside `decide`)
+	b.WriteString("def harnessKindsL : List (List Char × List Char) := [\n")
+	b.WriteString(strings.Join(hkl, ",\n") + "\n]\n\nend Kap.Gen.C06\n")
 	out := filepath.Join(lean, "Kap", "Gen", "C06.lean")
 	os.MkdirAll(filepath.Dir(out), 0o755)
 	if old, err := os.ReadFile(out); err == nil && string(old) == b.String() {
